@@ -1,3 +1,88 @@
 import Driver.Common
-/-! Model driver for C08 — not built yet. -/
-def main (_args : List String) : IO Unit := pure ()
+import Logrange.Model.FieldsKV
+/-! Model driver for C08 (tag lines and field lists). Stateless; one request per line (`safe`/`qsafe` bits are the
+class predicates of the open findings, evaluated with the PINNED quoting triggers):
+
+* `quote <s>` → `<hex>`; `unquote <s>` → `ok <hex>` | `err`
+* `rcb <s>` / `split <s>` → `ok <hex>*` | `err`; `trim <s>` → `<hex>`
+* `parse <text>` → `ok <k> <v> …` (sorted by key) | `err`          (`tag.Parse`, the map)
+* `line <k> <v> …` → `<hex>`                                        (`tagMap.line()` over this iteration order)
+* `rt <text>` → `<rej|same|err|diff> safe=<0|1> line=<hex> line2=<hex>` (line2 = line of the re-read set)       (`Parse`, `Line`, `Parse` again)
+* `maprt <k> <v> …` → `<same|err|diff> safe=<0|1> line=<hex>`       (`MapToSet(m).Line()` parsed back)
+* `fromkv <text>` → `ok <hex>` | `err`; `askv <fields>` → `ok <hex>` | `panic`; `check <fields>` → `0|1`
+* `frt <text>` → `<rej|same|err|diff|panic> wf=<0|1> safe=<0|1> qsafe=<0|1> long=<0|1> kv=<hex>`; `fsafe <fields>` → `0|1`
+     (`NewFieldsFromKVString`, `AsKVString`, `NewFieldsFromKVString` again; `long` = some decoded piece > 255 bytes)
+* `prov <k> <v> …` → `<same|diff|err> qkey=<0|1> [items=<fields>]`       (`field.Parse(MapToSet(m).Line())` vs the pairs; `qkey` = a name starts with a quote)
+* `safe <k> <v> …` → `0|1`
+-/
+open Go Logrange Logrange.Quote Logrange.KV Logrange.Tags Logrange.FieldsKV Driver
+
+def okList : Option (List Bytes) → String
+  | none => "err"
+  | some l => if l.isEmpty then "ok" else "ok " ++ hexList l
+
+def pairsOfToks : List String → List (Bytes × Bytes)
+  | k :: v :: r => (unhex k, unhex v) :: pairsOfToks r
+  | _ => []
+
+def flat (m : List (Bytes × Bytes)) : List Bytes := m.flatMap (fun p => [p.1, p.2])
+
+def b01 (b : Bool) : String := if b then "1" else "0"
+
+def rtOf (m : Map) (rejOnNone : Bool := false) : String :=
+  let _ := rejOnNone
+  let l := line m
+  let (oc, l2) := match parse l with
+    | none => ("err", [])
+    | some m2 => (if m2 = m then "same" else "diff", line m2)
+  s!"{oc} safe={b01 (safePinned m)} line={hex l} line2={hex l2}"
+
+def step (_ : Unit) (toks : List String) : Unit × String :=
+  ((), match toks with
+  | ["quote", s] => hex (quote (unhex s))
+  | ["unquote", s] => (match unquote (unhex s) with | some r => "ok " ++ hex r | none => "err")
+  | ["rcb", s] => (match removeCurlyBraces (unhex s) with | some r => "ok " ++ hex r | none => "err")
+  | ["trim", s] => hex (trimSpaces (unhex s))
+  | ["split", s] => okList (splitString (unhex s))
+  | ["parse", s] => okList ((parse (unhex s)).map flat)
+  | "line" :: kvs => hex (lineOf (pairsOfToks kvs))
+  | ["rt", s] =>
+    (match parse (unhex s) with
+     | none => "rej safe=1 line=- line2=-"
+     | some m => rtOf m)
+  | "maprt" :: kvs => rtOf (Map.ofPairs (pairsOfToks kvs))
+  | "prov" :: kvs =>
+    -- pipe provenance: `field.Parse(srcTags)` must list the pairs of the set
+    let m := Map.ofPairs (pairsOfToks kvs)
+    let qkey := m.any (fun p => p.1.head? == some DQ || p.1.head? == some BQ)
+    (match fromKVItems (line m) with
+     | none => s!"err qkey={b01 qkey}"
+     | some items => s!"{if items = flat m then "same" else "diff"} qkey={b01 qkey} items={hex (encodeItems items)}")
+  | "safe" :: kvs => b01 (safePinned (Map.ofPairs (pairsOfToks kvs)))
+  | ["fromkv", s] => (match fromKV (unhex s) with | some r => "ok " ++ hex r | none => "err")
+  | ["askv", s] => (match asKV (unhex s) with | .ok r => "ok " ++ hex r | .panic => "panic")
+  | ["check", s] => let f := unhex s; b01 (check (f.length + 1) f)
+  | ["frt", s] =>
+    (match fromKVItems (unhex s) with
+     | none => "rej wf=1 safe=1 qsafe=1 long=0 kv=-"
+     | some items =>
+       let f := encodeItems items
+       let long := items.any (fun x => x.length > maxLen)
+       let wf := match decodeItems f.length f with | some it => it.length % 2 == 0 | none => false
+       let sf := safeFieldsPinned (pairsOf items)
+       let qs := qsafeFieldsPinned (pairsOf items)
+       match asKV f with
+       | .panic => s!"panic wf={b01 wf} safe={b01 sf} qsafe={b01 qs} long={b01 long} kv=-"
+       | .ok kv =>
+         let oc := match fromKV kv with
+           | none => "err"
+           | some f2 => if f2 = f then "same" else "diff"
+         s!"{oc} wf={b01 wf} safe={b01 sf} qsafe={b01 qs} long={b01 long} kv={hex kv}")
+  | ["fsafe", s] =>
+    let f := unhex s
+    (match decodeItems f.length f with
+     | some items => b01 (safeFieldsPinned (pairsOf items))
+     | none => "0")
+  | _ => "bad-op")
+
+def main (args : List String) : IO Unit := Driver.run step () args
